@@ -78,3 +78,9 @@ Example C02_nonvacuous :
        [(@Build_sind Qn 3 [9; 9]%Q 1%Q 0%Q true);  (@Build_sind Qn 4 [7; 7]%Q 9%Q 0%Q true);  (@Build_sind Qn 5 [0; 0]%Q 2%Q 0%Q true)])
   = [0; 2; 4]%nat.
 Proof. vm_compute. reflexivity. Qed.
+
+(* ---- binary64: the same statements for the number system the code computes in (finite values; Flocq) ---- *)
+From PV Require Import Base.NumF Base.NumFOrd.
+Definition C02_never_loses_ground_float := @C02_never_loses_ground Fn fin Fn_ord fin_zero.
+Definition C02_nodup_float := @C02_nodup Fn fin Fn_ord fin_zero.
+Print Assumptions C02_never_loses_ground_float.
